@@ -252,6 +252,20 @@ def check_single_queue(ctx, fx, cfg, r1="R01.1", r2="R01.2"):
     return ctors, subs
 
 
+def check_dequeue_discipline(ctx, fx, cfg, RULE, families):
+    """each loop takes a payload out of the mailbox at one site and dispatches it before it takes the next (shared with
+    C12 as L8 alone: a receiving side that looks ahead holds a payload outside the queue, which adds to its capacity)"""
+    res = run_loops(ctx, fx, RULE, families)
+    for f, kind, b, n in res:
+        fam = loops.loop_family(fx, f)
+        deq = []
+        for g in fam:
+            gb = ctx.body(fx, g)
+            deq += [t["l"] for _, t in gb.normal_calls() if loops.is_mailbox_next(t)]
+        ctx.require(len(deq) == 1, RULE, "%s-loop-one-dequeue-site@%s" % (kind, cfg), "expected exactly one dequeue site per loop, found %s" % deq, fn=f["def"], site=f["loc"], detail=deq)
+    return res
+
+
 def check_cfg(ctx, fx, cfg):
     ctors, subs = check_single_queue(ctx, fx, cfg)
     # R01.3 enqueue before return
@@ -350,14 +364,9 @@ def check_cfg(ctx, fx, cfg):
                         ctx.ok("R01.4", inst + ":send-future-driven-on-all-paths", t["l"], {"nfa": wn.stats()})
     ctx.floor("R01.4", "payload construction sites (%s)" % cfg, n_sites, 5)  # call, ping, a send, Stop, Restart at least
     # R01.5 loops
-    res = run_loops(ctx, fx, "R01.5", {"L7", "L8"})
+    res = check_dequeue_discipline(ctx, fx, cfg, "R01.5", {"L7", "L8"})
+
     for f, kind, b, n in res:
-        fam = loops.loop_family(fx, f)
-        deq = []
-        for g in fam:
-            gb = ctx.body(fx, g)
-            deq += [t["l"] for _, t in gb.normal_calls() if loops.is_mailbox_next(t)]
-        ctx.require(len(deq) == 1, "R01.5", "%s-loop-one-dequeue-site@%s" % (kind, cfg), "expected exactly one dequeue site per loop, found %s" % deq, fn=f["def"], site=f["loc"], detail=deq)
         inv3 = loops.task_invokes(fx, b)
         inv_body = b
         if not inv3:
